@@ -5,7 +5,7 @@ from .common import *   # noqa: F401,F403
 from . import instr_gen as ig
 from .C11 import r_qres
 
-LEAF = ['Leaf_special']      # translated leaf functions this property's model relies on (Tie/<name>.v)
+LEAF = ['Leaf_special', 'Leaf_note']      # translated leaf functions this property's model relies on (Tie/<name>.v)
 RULE = ("one well-formed instrument section per case over a 1-5 segment tempo map: all lane subsets x length patterns {all zero, all equal, partly zero, all different, "
         "only orange non-zero} x forced/tap flag lines (with zero AND non-zero lengths) in every position x open notes with flags before/after; sustains crossing tempo changes; "
         "tracks whose longest sustain is not on the last note; judged: sustain value, longest_sustain, end_tick, end_timestamp = the implementation's own query at end_tick >= start, "
@@ -96,6 +96,9 @@ def cases(ctx, n):
             # a long sustain held under later short notes
             groups[0]["lines"] = [(i, 20 * R) if i < 5 or i == 7 else (i, l) for i, l in groups[0]["lines"]]
         lines = ig.section_lines(rng, groups, R, sp=rng.random() < 0.5, tev=False)
+        if rng.random() < 0.3:
+            # numerals with leading zeros / non-ASCII digits: the written length is the VALUE of the numeral
+            lines = [(ig.zero_pad(rng, l) if rng.random() < 0.6 else ig.exotic_line(rng, l)) if rng.random() < 0.6 else l for l in lines]
         tm = ig.gen_tempo(rng, R, groups[-1]["tick"] + 2 * R)
         out.append(make_case(R, tm, groups, lines))
     return out
